@@ -62,6 +62,23 @@ def _annotate(tree, rel):
     visit(tree, '')
 
 
+def dump_code(fn):
+    """ast.dump of a function without its docstrings (re-indenting a stored
+    text changes the white space inside multi-line docstrings)."""
+    saved = []
+    for x in ast.walk(fn):
+        # docstrings and bare string statements used as comments
+        if isinstance(x, ast.Expr) and isinstance(
+                x.value, ast.Constant) and isinstance(x.value.value, str):
+            saved.append((x.value, x.value.value))
+            x.value.value = ''
+    try:
+        return ast.dump(fn)
+    finally:
+        for c, v in saved:
+            c.value = v
+
+
 def qual(node):
     return getattr(node, '_qual', '') or '<module>'
 
@@ -161,7 +178,7 @@ class Repo(object):
                     continue
                 # decorators are not part of the stored text
                 ref.decorator_list = node.decorator_list
-                if ast.dump(ref) == ast.dump(node):
+                if dump_code(ref) == dump_code(node):
                     continue
                 if refcmp.strict_equivalent(node, ref):
                     subs.append((node, ent['source']))
